@@ -32,6 +32,10 @@ type legResult struct {
 	wall       float64
 	determ     string
 	procs      int
+	// deaths beyond the first per invariant (not minimised again), and race
+	// reports no fresh process reproduced
+	extraDeaths  int
+	unreproduced []string
 }
 
 type violation struct {
@@ -306,6 +310,7 @@ func runLeg(l leg, tier string, batch uint64, workers int, scratch string) (*leg
 	wgp.Wait()
 	lr.procs = shards
 
+	deathSeen := map[string]bool{}
 	for i, pr := range results {
 		stt := pr.status
 		if pr.kind == "start" {
@@ -367,6 +372,10 @@ func runLeg(l leg, tier string, batch uint64, workers int, scratch string) (*leg
 			continue
 		}
 		want := deathFailure(info, kind, pr.exit, stderr, stt)
+		if want != nil && deathSeen[want.Invariant] {
+			lr.extraDeaths++ // same invariant already confirmed and minimised once in this batch
+			continue
+		}
 		if want == nil {
 			return nil, fatal2("worker %d of %s died (%s, exit %d) at run %d step %d incall=%d and the death is not attributable to the code under test:\n%s", i, l.scenario, kind, pr.exit, stt.Idx, stt.Step, stt.InCall, tail(stderr, 4000))
 		}
@@ -377,6 +386,27 @@ func runLeg(l leg, tier string, batch uint64, workers int, scratch string) (*leg
 		var got *engine.Failure
 		if died {
 			got = deathFailure(info, k2, ec2, se2, st2)
+		}
+		if pt, ok := info.Sc.(engine.Perturber); ok && (got == nil || got.Invariant != want.Invariant) {
+			// layout-dependent oracle: try other layout variants of the same plan
+			for k := 0; k < 24 && (got == nil || got.Invariant != want.Invariant); k++ {
+				cand := pt.Perturb(plan, k)
+				cj, _ := json.Marshal(cand)
+				_, d3, k3, ec3, se3, st3 := execChild(l, dir, cj, 600*time.Second)
+				if d3 {
+					if g := deathFailure(info, k3, ec3, se3, st3); g != nil && g.Invariant == want.Invariant {
+						got, plan, pj, died, k2, ec2 = g, cand, cj, d3, k3, ec3
+					}
+				}
+			}
+			if got == nil || got.Invariant != want.Invariant {
+				// A genuine report (the worker's own log is the evidence) that no
+				// fresh process reproduces. Do not abort the batch: other legs may
+				// decide the same defect deterministically.
+				lr.unreproduced = append(lr.unreproduced, fmt.Sprintf("worker %d run %d seed %d: %s", i, stt.Idx, stt.Seed, want.Detail))
+				deathSeen[want.Invariant] = true
+				continue
+			}
 		}
 		if got == nil || got.Invariant != want.Invariant {
 			return nil, fatal2("worker %d of %s died at run %d step %d (%s) but the death did not reproduce in a fresh process (died=%v kind=%s exit=%d)\n%s", i, l.scenario, stt.Idx, stt.Step, want.Invariant, died, k2, ec2, tail(stderr, 3000))
@@ -397,6 +427,7 @@ func runLeg(l leg, tier string, batch uint64, workers int, scratch string) (*leg
 		}
 		minPlan, minFail, tried := engine.Minimise(info.Sc, plan, got, execFn, box)
 		mp, _ := json.Marshal(minPlan)
+		deathSeen[want.Invariant] = true
 		lr.violations = append(lr.violations, violation{Scenario: l.scenario, Build: info.Build, Binary: l.binary, Seed: stt.Seed, Fail: minFail, Plan: mp, Death: true, Min: true, Tried: tried})
 	}
 	if selftestDied != "" && len(lr.violations) == 0 {
@@ -559,6 +590,17 @@ func cmdSupervise(args []string) int {
 		}
 	}
 
+	// ---- race reports of workers that no fresh process reproduced
+	for _, lr := range lrs {
+		for _, u := range lr.unreproduced {
+			fmt.Printf("UNREPRODUCED-REPORT (%s): %s\n", lr.leg.scenario, u)
+		}
+		if len(lr.unreproduced) > 0 && exit == 0 {
+			// nothing else failed: the report stands on the worker's log alone and
+			// cannot be replayed — that is harness trouble, not a verdict
+			return fatal2("%d race report(s) by %s workers could not be reproduced in a fresh process under 24 layout variants and no other check failed", len(lr.unreproduced), lr.leg.scenario)
+		}
+	}
 	// ---- evidence
 	if *evidence != "" {
 		if rc := writeEvidence(*evidence, *prop, *tier, *level, *batch, *workers, lrs, nviol, time.Since(start).Seconds()); rc != 0 {
